@@ -142,6 +142,11 @@ func c11Run(c c11Case) []*core.Violation {
 			}
 		case "tofile":
 			p := filepath.Join(env.Dir, fmt.Sprintf("c11-%d.eml", os.Getpid()))
+			if op.K > 0 {
+				// the target exists already and is LONGER than the message (an earlier, bigger mail was
+				// written to the same path): WriteToFile replaces it
+				_ = os.WriteFile(p, bytes.Repeat([]byte("old content of the file\r\n"), op.K), 0o600)
+			}
 			rerr = m.WriteToFile(p)
 			if rerr == nil {
 				out, rerr = os.ReadFile(p)
@@ -321,6 +326,8 @@ func c11Gen(t *rapid.T) c11Case {
 			op.K = rapid.IntRange(0, 1500).Draw(t, "sinkoffset")
 		case "partialupdate":
 			op.K = rapid.SampledFrom([]int{0, 1, 15, 100, 400, 1000, 5000}).Draw(t, "partialread")
+		case "tofile":
+			op.K = rapid.SampledFrom([]int{0, 0, 1, 40, 4000}).Draw(t, "existingfile")
 		case "failprod":
 			if usedFailProd {
 				op.Kind = "writeto"
@@ -357,7 +364,7 @@ func c11Gen(t *rapid.T) c11Case {
 func TestC11(t *testing.T) {
 	rec := core.Rec("C11")
 	rec.Rule = "rapid draws a message program (0..3 parts, 0..2 embeds, 0..3 attachments; all file sources incl. read-seekers, files on disk, fs.FS, templates and custom writers; file encodings default/base64/8bit/7bit; 0..3 preformatted and 0..3 generic headers; Date/Message-ID/boundaries left to first use) " +
-		"and a history of 4..5 render operations over {WriteTo, Write, NewReader, UpdateReader (also of a reader that was only partly read), WriteToFile, WriteToTempFile, Send to the reference server (payload after dot-unstuffing), render into a sink failing at a drawn offset, render with one producer failing on exactly that invocation}; one history in five is S/MIME-signed (ECDSA or RSA). " +
+		"and a history of 4..5 render operations over {WriteTo, Write, NewReader, UpdateReader (also of a reader that was only partly read), WriteToFile (also onto an existing, longer file), WriteToTempFile, Send to the reference server (payload after dot-unstuffing), render into a sink failing at a drawn offset, render with one producer failing on exactly that invocation}; one history in five is S/MIME-signed (ECDSA or RSA). " +
 		"Oracle: every successful output is byte-identical to the first successful one (Send: modulo what DATA does to any content, bare LF -> CRLF and a final CRLF; signed messages: identical top-level fields with the per-render outer boundary masked and an identical signed entity). Non-trivial: >= 1 file or >= 2 parts, and two different output paths or a failed render in the history; distinct by (shape key, op sequence)."
 	rec.Assumptions = []string{"a sink offset beyond the output length is a successful render (not compared)", "a transmitted copy is never used as the reference (transport normalisation is lossy)", "signed histories use canonical CRLF content"}
 	core.Prop[c11Case]{ID: "C11", Test: "TestC11", Gen: c11Gen, Run: c11Run}.Check(t)
